@@ -91,13 +91,15 @@ Step ==
              trig == Deps(t) \cap upd.written # {}
              (* t writes something an earlier-run task already read (same location, a container of it, or a member of it) *)
              late == \E w \in Writes(t) : w \in upd.readsUp \/ (Chain(w) \cap upd.readsDown # {})
-         IN /\ upd' = [upd EXCEPT !.ran = @ \cup {t}, !.written = @ \cup ChainS(Tgts(t)),
+         IN /\ upd' = IF ~upd.on THEN upd ELSE
+                       [upd EXCEPT !.ran = @ \cup {t}, !.written = @ \cup ChainS(Tgts(t)),
                                   !.readsUp = @ \cup ChainS(Reads(t)), !.readsDown = @ \cup Reads(t),
                                   !.order_bad = @ \/ late]
-            /\ Flag((IF t \in ranset THEN {"C02.task-ran-twice-in-one-update"} ELSE {})
+            (* outside set_value (task.run() / run_tasks() called directly) no order or multiplicity is promised *)
+            /\ Flag((IF upd.on /\ t \in ranset THEN {"C02.task-ran-twice-in-one-update"} ELSE {})
                     \cup (IF upd.on /\ ~trig THEN {"C02.task-outside-the-triggered-set-ran"} ELSE {})
                     \cup (IF t \notin act THEN {"C03.a-removed-task-ran"} ELSE {})
-                    \cup (IF late /\ t \notin ranset THEN {"C02.producer-ran-after-its-consumer"} ELSE {}))
+                    \cup (IF upd.on /\ late /\ t \notin ranset THEN {"C02.producer-ran-after-its-consumer"} ELSE {}))
             /\ excused' = excused \ {t}
             /\ UNCHANGED act
     [] e.ev = "End" ->
